@@ -230,6 +230,22 @@ def suite_float(ctx):
             o3 = np.zeros((3, *gi.shape_cells), order='F')
             n3 = rng.standard_normal((3, *go.shape_cells))
             maps._interp_volume_average_adj(o3, gi, n3, go)
+            # the transpose ADDS to its output (the gradient is accumulated
+            # over source-frequency pairs): a second call on the same output
+            first = o3.copy()
+            n3b = rng.standard_normal((3, *go.shape_cells))
+            maps._interp_volume_average_adj(o3, gi, n3b, go)
+            o3b = np.zeros((3, *gi.shape_cells), order='F')
+            maps._interp_volume_average_adj(o3b, gi, n3b, go)
+            if not np.allclose(o3, first + o3b, rtol=1e-12, atol=1e-14):
+                ctx.violation(
+                    'adjoint-does-not-accumulate',
+                    'a second call of the transposed averaging on the same '
+                    'output array does not add its contribution to the first '
+                    '(the gradient of several source-frequency pairs is '
+                    'accumulated this way)',
+                    {'in': gi.shape_cells, 'out': go.shape_cells})
+            o3 = first
             lhs = float(np.sum(got*n3[0]))
             rhs = float(np.sum(vals*o3[0]))
             if abs(lhs - rhs) > 1e-11*(abs(lhs) + abs(rhs) + 1e-300):
